@@ -89,6 +89,12 @@ where
     S::Value: Debug + Clone + Serialize,
     F: Fn(&S::Value, &mut Stats) -> Result<bool, Failure> + Sync,
 {
+    let f = |c: &S::Value, st: &mut Stats| -> Result<bool, Failure> {
+        match catch(|| f(c, st)) {
+            Ok(r) => r,
+            Err(msg) => Err(Failure::new("panic", 0, format!("evaluating the case panicked (overflow checks and debug assertions are on): {}", msg))),
+        }
+    };
     let workers = jobs();
     let per = (cases_total as usize + workers - 1) / workers;
     let stop = AtomicBool::new(false);
